@@ -9,7 +9,7 @@ TUS = ['op.cc', 'builtin.cc', 'pred_result.cc', 'stack.cc', 'value.cc', 'scon.cc
        'value-str.cc', 'constant.cc', 'int.cc', 'overload.cc', 'selector.cc', 'docstring.cc', 'value-closure.cc', 'builtin-closure.cc']
 
 def modules(ctx):
-    m = V.Module(ctx, 'c04', TUS, 'c04.cc', ['c04_tables', 'c04_pred_objects'], native_tus=V.ALL_CORE, native_libs=('-ldl',),
+    m = V.Module(ctx, 'c04', TUS, 'c04.cc', ['c04_tables', 'c04_pred_objects', 'c04_invert_pos', 'c04_invert_neg'], native_tus=V.ALL_CORE, native_libs=('-ldl',),
                  empties=('_ZN10value_type13register_type',))
     return {'c04': m}
 
@@ -17,7 +17,8 @@ def run(ctx):
     m = modules(ctx)['c04']
     ctx.bounds.update(operands='all 3x3 pred_result pairs, both polarities of maybe_invert')
     ctx.assumptions += ['operand predicates are stubs returning a symbolic fixed outcome', 'operator new never fails']
-    V.run_simple(ctx, m, [('c04_tables', 4, 300, 'all 9 operand pairs'), ('c04_pred_objects', 6, 600, 'all 9 operand pairs x polarity')],
+    V.run_simple(ctx, m, [('c04_tables', 4, 300, 'all 9 operand pairs'), ('c04_pred_objects', 6, 600, 'all 9 operand pairs'),
+                          ('c04_invert_pos', 6, 300, 'all 3 outcomes'), ('c04_invert_neg', 6, 300, 'all 3 outcomes')],
                  object_bits=12)
 
 def replay(ctx, js):
